@@ -30,6 +30,30 @@ var redirectTable = map[string]string{
 	"fmt.Fprint":                                      "ModelFprint",
 	"sort.Slice":                                      "ModelSortSlice",
 	"github.com/kelseyhightower/envconfig.Process":    "ModelEnvconfigProcess",
+	// file-system model (harness/zzvrf/vfs.go)
+	"os.Stat":                        "ModelOsStat",
+	"os.MkdirAll":                    "ModelOsMkdirAll",
+	"os.Mkdir":                       "ModelOsMkdir",
+	"os.Create":                      "ModelOsCreate",
+	"os.Open":                        "ModelOsOpen",
+	"os.Remove":                      "ModelOsRemove",
+	"os.RemoveAll":                   "ModelOsRemoveAll",
+	"os.Rename":                      "ModelOsRename",
+	"(*os.File).Close":               "ModelFileClose",
+	"(*os.File).Sync":                "ModelFileSync",
+	"(*os.File).Name":                "ModelFileName",
+	"(*os.File).Write":               "ModelFileWrite",
+	"(*os.File).Readdirnames":        "ModelFileReaddirnames",
+	"bufio.NewWriter":                "ModelBufioNewWriter",
+	"(*bufio.Writer).Write":          "ModelBufioWrite",
+	"(*bufio.Writer).Flush":          "ModelBufioFlush",
+	"encoding/gob.NewEncoder":        "ModelGobNewEncoder",
+	"(*encoding/gob.Encoder).Encode": "ModelGobEncode",
+	"encoding/gob.NewDecoder":        "ModelGobNewDecoder",
+	"(*encoding/gob.Decoder).Decode": "ModelGobDecode",
+	"(*sync.Pool).Get":               "ModelPoolGet",
+	"(*sync.Pool).Put":               "ModelPoolPut",
+	"crypto/sha1.New":                "ModelSHA1New",
 }
 
 // InstallRedirects resolves the redirect table against the loaded program.
